@@ -90,6 +90,10 @@ Ltac c08_loop_rule :=
     apply crash_in_bindo; [apply crash_in_filterM; intros ?|intros ? _]
   | |- crash_in _ (bindo (mapM _ _) _) =>
     apply crash_in_bindo; [apply crash_in_mapM; intros ?|intros ? _]
+  | |- context [seq_index ?s ?l 0] =>
+    (* x[0] on a list variable: the empty case must be excluded by an earlier test (e.g. len(x) != 1) *)
+    is_var l; destruct l;
+    [ try solve [exfalso; match goal with H : _ = _ |- _ => cbv in H; discriminate H end] | ]
   | |- context [seq_index ?s (?x :: ?xs) 0] => rewrite (seq_index_cons0 s x xs)
   | |- context [seq_index ?s (?x :: ?xs) (-1)] =>
     let y := fresh "y" in let Hy := fresh "Hy" in
